@@ -116,6 +116,12 @@ def records_from_tissue(rng, at, k=(0, 5), id_gaps=True, density="all", orphans=
     Ed = {}
     seg_id = {}
     dens_of_key = {key: float(np.round(rng.uniform(0.5, 1.5), 3)) for key in chains}
+    if elab and elab[0] % 3 == 0:
+        # a density of exactly zero is a value like any other (an interface without tension); chosen from numbers already drawn
+        zr = np.random.default_rng([elab[0], ne, 14])
+        for key in list(dens_of_key):
+            if zr.random() < 0.2:
+                dens_of_key[key] = 0.0
     for i, (key, p, q) in enumerate(segs):
         if neg_refs and rng.random() < 0.5:
             p, q = q, p
